@@ -247,6 +247,51 @@ def judge(ctx, t, model_name, backend, cls, mag=0):
                 return
 
 
+def codepoint_sweep(ctx, block):
+    """Every Unicode code point (surrogates excepted: the driver cannot encode them) inside a
+    string value, `block` consecutive code points per value: the statement text must be the one
+    of the one-letter value, the value must arrive whole in the parameter list."""
+    j = 0
+    for start in range(0, 0x110000, block):
+        body = "".join(chr(c) for c in range(start, min(start + block, 0x110000))
+                       if c != 0x27 and not 0xD800 <= c <= 0xDFFF)
+        if not body:
+            continue
+        for frame in ("s eq '%s'", "u in ('k', '%s')", "concat(s, '%s') eq u"):
+            for backend in ("django", "django-values", "sqla-orm-select", "sqla-core"):
+                j += 1
+                if not ctx.mine(j):
+                    continue
+                try:
+                    base = BACKENDS[backend]("T", frame % "x")
+                    res = BACKENDS[backend]("T", frame % body)
+                except exceptions.ODataException:
+                    ctx.count("refused")
+                    continue
+                except Exception as e:
+                    ctx.count("backend_raised")
+                    ctx.cls("raised:" + type(e).__name__)
+                    continue
+                if base is None or res is None:
+                    ctx.count("no_statement_seen")
+                    continue
+                ctx.count("evaluations")
+                ctx.count("statements_observed", 2)
+                ctx.count("sweep_codepoints", len(body))
+                ctx.cls("codepoint-sweep")
+                case = {"skeleton": frame % "x", "backend": backend, "model": "T", "block_start": "U+%04X" % start,
+                        "block": block}
+                if res[0] != base[0]:
+                    ctx.fail(dict(case, sql_a=base[0][:300], sql_b=res[0][:300]), "compiled SQL differs with the string content",
+                             cls="codepoint-sweep", sig=["sweep-text", backend])
+                    continue
+                params = [p for p in flat_params(res[1]) if isinstance(p, str)]
+                ctx.count("values_checked")
+                if not any(body in p for p in params):
+                    ctx.fail(dict(case, sql=res[0][:300]), "string content does not arrive whole in the parameter list",
+                             observed=[repr(p)[:60] for p in params][:6], cls="codepoint-sweep", sig=["sweep-param", backend])
+
+
 def run(ctx):
     contracts.install_parse()
     contracts.install_visit_trace()
@@ -315,6 +360,7 @@ def run(ctx):
                 if ctx.mine(k):
                     judge(ctx, t, "T", b, "magnitude-%d" % mag, mag)
                     ctx.cls("value-magnitude:%d" % mag)
+    codepoint_sweep(ctx, ctx.pick(8192, 1024))
     n = ctx.pick(260, 5000)
     for i in range(n):
         if ctx.out_of_time():
